@@ -49,8 +49,9 @@ def write_project(name, files):
 if __name__ == "__main__":
     sys.path.insert(0, os.path.join(ROOT, "tools"))
     from propsconf import PROPS
+    claimed = set(l.strip() for l in open(os.path.join(ROOT, "tools", "claimed.txt")) if l.strip())
     roots = []
-    for c in PROPS.values():
+    for c in (v for k, v in PROPS.items() if k in claimed):
         roots += [c["props"], c["glue"]]
     files = closure(roots)
     write_project("", files)
